@@ -36,16 +36,22 @@ inductive Word where
   | ifT | endif
   deriving Repr, DecidableEq
 
-def Word.src : Word → List Char
-  | .ifT => [' ', 'i', 'f', ' ', 't', ' ']
-  | .endif => [' ', 'e', 'n', 'd', 'i', 'f', ' ']
+/-- blank around a tag interior: `{{ v }}` or, tight, `{{v}}` -/
+def pad (tight : Bool) : List Char := if tight then [] else [' ']
+
+def Word.core : Word → List Char
+  | .ifT => ['i', 'f', ' ', 't']
+  | .endif => ['e', 'n', 'd', 'i', 'f']
+
+def Word.src (w : Word) (tight : Bool) : List Char := pad tight ++ (w.core ++ pad tight)
 
 inductive Kind where
-  | var
-  | block (w : Word)
-  | comment
+  | var (tight : Bool)
+  | block (w : Word) (tight : Bool)
+  /-- comment with an arbitrary body (possibly empty, blank, or made of `-`/`+` characters) -/
+  | comment (body : List Char)
   /-- raw block: content, right marker of `{% raw %}`, left marker of `{% endraw %}` -/
-  | raw (content : List Char) (ri l2 : Mark)
+  | raw (content : List Char) (ri l2 : Mark) (tight : Bool)
   deriving Repr, DecidableEq
 
 /-- a tag with its outer markers (`l` on the opening side, `r` on the closing side) -/
@@ -60,27 +66,26 @@ structure Tmpl where
   tail : List (Tag × List Char)
   deriving Repr, DecidableEq
 
-def varBody : List Char := [' ', 'v', ' ']
-def commentBody : List Char := [' ', 'c', ' ']
-def rawBody : List Char := [' ', 'r', 'a', 'w', ' ']
-def endrawBody : List Char := [' ', 'e', 'n', 'd', 'r', 'a', 'w', ' ']
+def varBody (tight : Bool) : List Char := pad tight ++ ('v' :: pad tight)
+def rawBody (tight : Bool) : List Char := pad tight ++ (rawName ++ pad tight)
+def endrawBody (tight : Bool) : List Char := pad tight ++ (endrawName ++ pad tight)
 
 /-- start delimiter of a tag -/
 def Tag.start (d : Delims) (g : Tag) : List Char :=
   match g.kind with
-  | .var => d.vs
-  | .block _ => d.bs
-  | .comment => d.cs
-  | .raw _ _ _ => d.bs
+  | .var _ => d.vs
+  | .block _ _ => d.bs
+  | .comment _ => d.cs
+  | .raw _ _ _ _ => d.bs
 
 /-- source after the start delimiter -/
 def Tag.after (d : Delims) (g : Tag) : List Char :=
   match g.kind with
-  | .var => g.l.src ++ varBody ++ g.r.src ++ d.ve
-  | .block w => g.l.src ++ w.src ++ g.r.src ++ d.be
-  | .comment => g.l.src ++ commentBody ++ g.r.src ++ d.ce
-  | .raw c ri l2 =>
-    g.l.src ++ rawBody ++ ri.src ++ d.be ++ c ++ d.bs ++ l2.src ++ endrawBody ++ g.r.src ++ d.be
+  | .var tight => g.l.src ++ varBody tight ++ g.r.src ++ d.ve
+  | .block w tight => g.l.src ++ w.src tight ++ g.r.src ++ d.be
+  | .comment body => g.l.src ++ body ++ g.r.src ++ d.ce
+  | .raw c ri l2 tight =>
+    g.l.src ++ rawBody tight ++ ri.src ++ d.be ++ c ++ d.bs ++ l2.src ++ endrawBody tight ++ g.r.src ++ d.be
 
 def Tag.src (d : Delims) (g : Tag) : List Char := g.start d ++ g.after d
 
@@ -93,7 +98,7 @@ def unparse (d : Delims) (tm : Tmpl) : List Char := tm.head ++ unparseTail d tm.
 /-- block, comment and raw tags take part in `trim_blocks` / `lstrip_blocks`; variable tags do not -/
 def Tag.blockish (g : Tag) : Bool :=
   match g.kind with
-  | .var => false
+  | .var _ => false
   | _ => true
 
 /-! ## the rules -/
@@ -127,10 +132,10 @@ def cut (l r : Nat) (t : List Char) : List Char := (t.drop l).take (t.length - l
     content for a raw block (a text between two block tags) -/
 def tagOut (cfg : Cfg) (vm bm : List Char) (g : Tag) : List Char :=
   match g.kind with
-  | .var => vm
-  | .block _ => bm
-  | .comment => []
-  | .raw c ri l2 => cut (leftCut cfg true ri c) (rightCut cfg false true l2 c) c
+  | .var _ => vm
+  | .block _ _ => bm
+  | .comment _ => []
+  | .raw c ri l2 _ => cut (leftCut cfg true ri c) (rightCut cfg false true l2 c) c
 
 /-- text `t` (whose first `l` characters are removed by the tag on its left), then the rest -/
 def specTail (cfg : Cfg) (vm bm : List Char) : Bool → Nat → List Char → List (Tag × List Char) → List Char
@@ -180,13 +185,42 @@ def noBsIn (d : Delims) : List Char → List Char → Bool
 /-- what follows the content of a raw block inside its tag -/
 def Tag.rawClose (d : Delims) (g : Tag) : List Char :=
   match g.kind with
-  | .raw _ _ l2 => d.bs ++ l2.src ++ endrawBody ++ g.r.src ++ d.be
+  | .raw _ _ l2 tight => d.bs ++ l2.src ++ endrawBody tight ++ g.r.src ++ d.be
   | _ => []
 
 /-- raw content: the block start does not occur before the closing tag -/
 def rawFree (d : Delims) (g : Tag) (following : List Char) : Bool :=
   match g.kind with
-  | .raw c _ _ => noBsIn d c (g.rawClose d ++ following)
+  | .raw c _ _ _ => noBsIn d c (g.rawClose d ++ following)
+  | _ => true
+
+def isMarkChar (c : Char) : Bool := c = '-' || c = '+'
+
+/-- no occurrence of `pat` begins inside `t` when `t` is followed by `following` -/
+def noPatIn (pat : List Char) : List Char → List Char → Bool
+  | [], _ => true
+  | c :: r, following => !startsWith pat (c :: r ++ following) && noPatIn pat r following
+
+/-- an unmarked opening side is not followed by a `-`/`+` (of the body, or the closing marker of an
+    empty body): it would be taken for the left marker -/
+def bodyStartOk (body : List Char) (l r : Mark) : Bool :=
+  l != .none || match body ++ r.src with
+    | c :: _ => !isMarkChar c
+    | [] => true
+
+/-- an unmarked closing side is not preceded by a `-`/`+` of the body -/
+def bodyEndOk (body : List Char) (r : Mark) : Bool :=
+  r != .none || match body.reverse with
+    | c :: _ => !isMarkChar c
+    | [] => true
+
+/-- a comment reads back as written: its body does not contain the comment end, a body character
+    next to an unmarked side is not itself `-`/`+` (it would be taken for the marker), and an empty
+    body has no marker on the closing side only (`{#-#}` is a comment with a *left* marker) -/
+def commentOk (d : Delims) (g : Tag) (following : List Char) : Bool :=
+  match g.kind with
+  | .comment body =>
+    noPatIn d.ce (body ++ g.r.src) (d.ce ++ following) && bodyStartOk body g.l g.r && bodyEndOk body g.r
   | _ => true
 
 /-- every text is free of start delimiters: the only start markers of the source are its tags
@@ -197,7 +231,7 @@ def tailFree (d : Delims) : List Char → List (Tag × List Char) → Bool
   | t, (g, t') :: rest =>
     noStartIn d t (unparseTail d ((g, t') :: rest)) &&
       ownLongest d (g.start d) (unparseTail d ((g, t') :: rest)) &&
-      rawFree d g (t' ++ unparseTail d rest) && tailFree d t' rest
+      rawFree d g (t' ++ unparseTail d rest) && commentOk d g (t' ++ unparseTail d rest) && tailFree d t' rest
 
 def delimFree (d : Delims) (tm : Tmpl) : Bool := tailFree d tm.head tm.tail
 
